@@ -18,7 +18,7 @@ func main() {
 	allTags := flag.Bool("alltags", false, "activate every clause regardless of tag")
 	out := flag.String("out", "/verif/out/dev", "directory for SMT files")
 	timeout := flag.Duration("timeout", 30*time.Second, "per solver timeout")
-	jobs := flag.Int("j", 16, "parallel solver jobs")
+	jobs := flag.Int("j", 10, "parallel solver jobs")
 	verbose := flag.Bool("v", false, "list every obligation")
 	split := flag.Bool("splitret", true, "check postconditions per return statement")
 	tier := flag.String("tier", "quick", "quick or thorough")
